@@ -33,6 +33,8 @@ fn lt_parts(lifetime: &Option<String>) -> (String, String, String) {
 }
 
 fn emit_obs_impls(an: &Analysis, o: &mut String) {
+    // `keep` only matters when the world has resource handles
+    let with_keep = !an.handles.is_empty();
     for s in &an.structs {
         let (ig, suffix, lt) = lt_parts(&s.lifetime);
         let ty = root_path(&s.path, &s.ident);
@@ -50,7 +52,19 @@ fn emit_obs_impls(an: &Analysis, o: &mut String) {
         for (i, f) in s.fields.iter().enumerate() {
             write!(o, "{f}: v{i}, ").unwrap();
         }
-        writeln!(o, "}} }}\n}}").unwrap();
+        writeln!(o, "}} }}").unwrap();
+        if with_keep {
+            write!(o, "    fn keep(self) {{ let Self {{ ").unwrap();
+            for (i, f) in s.fields.iter().enumerate() {
+                write!(o, "{f}: v{i}, ").unwrap();
+            }
+            write!(o, "}} = self; ").unwrap();
+            for (i, _) in s.fields.iter().enumerate() {
+                write!(o, "{SUP}::Obs::keep(v{i}); ").unwrap();
+            }
+            writeln!(o, "}}").unwrap();
+        }
+        writeln!(o, "}}").unwrap();
     }
     for e in &an.enums {
         let (ig, suffix, lt) = lt_parts(&e.lifetime);
@@ -74,7 +88,19 @@ fn emit_obs_impls(an: &Analysis, o: &mut String) {
             }
         }
         writeln!(o, "        n => d.bad_case(n, {:?}),", e.ident).unwrap();
-        writeln!(o, "    }} }}\n}}").unwrap();
+        writeln!(o, "    }} }}").unwrap();
+        if with_keep {
+            writeln!(o, "    fn keep(self) {{ match self {{").unwrap();
+            for (v, payload) in e.variants.iter() {
+                if *payload {
+                    writeln!(o, "        Self::{v}(p) => {SUP}::Obs::keep(p),").unwrap();
+                } else {
+                    writeln!(o, "        Self::{v} => {{}}").unwrap();
+                }
+            }
+            writeln!(o, "    }} }}").unwrap();
+        }
+        writeln!(o, "}}").unwrap();
     }
     for f in &an.flags {
         let ty = root_path(&f.path, &f.ident);
@@ -192,22 +218,18 @@ pub fn emit(an: &Analysis, wit: &str, world: &str, opts_json: &str) -> Glue {
             writeln!(o, "        {} {{", sig.to_token_stream()).unwrap();
             writeln!(o, "            obs::enter({ordinal});").unwrap();
             if is_res {
-                crate::emit_res::emit_method_prologue(&sig, recv, &mut o);
+                crate::emit_res::emit_method_prologue(an, t, recv, &mut o);
             }
             for a in &args {
                 writeln!(o, "            obs::arg(&{a});").unwrap();
             }
-            if is_res && sig.ident == "new" && !recv && matches!(&sig.output, syn::ReturnType::Type(_, t) if t.to_token_stream().to_string() == "Self") {
-                crate::emit_res::emit_constructor_body(&mut o);
-            } else {
-                writeln!(o, "            let script = obs::next_script();").unwrap();
-                writeln!(o, "            let arena = obs::Arena::new();").unwrap();
-                writeln!(o, "            let r = obs::build(&script, &arena);").unwrap();
-                if is_res || !an.handles.is_empty() {
-                    crate::emit_res::emit_keep_args(&args, &mut o);
-                }
-                writeln!(o, "            r").unwrap();
+            writeln!(o, "            let verif_script = obs::next_script();").unwrap();
+            writeln!(o, "            let verif_arena = obs::Arena::new();").unwrap();
+            writeln!(o, "            let verif_ret = obs::build(&verif_script, &verif_arena);").unwrap();
+            if !an.handles.is_empty() {
+                crate::emit_res::emit_dispose_args(&args, &mut o);
             }
+            writeln!(o, "            verif_ret").unwrap();
             writeln!(o, "        }}").unwrap();
         }
         writeln!(o, "    }}\n}}").unwrap();
@@ -243,6 +265,9 @@ pub fn emit(an: &Analysis, wit: &str, world: &str, opts_json: &str) -> Glue {
         }
         writeln!(o, "    let r = {callee}({});", call_args.join(", ")).unwrap();
         writeln!(o, "    obs::result(&r);").unwrap();
+        if !an.handles.is_empty() {
+            writeln!(o, "    obs::dispose(r);").unwrap();
+        }
         writeln!(o, "}}").unwrap();
         driver_of[k] = Some(name);
     }
@@ -287,7 +312,7 @@ pub fn emit(an: &Analysis, wit: &str, world: &str, opts_json: &str) -> Glue {
         writeln!(o, "    ImportEntry {{ link: {:?}, params: &[{}], results: &[{}], driver: {d} }},", i.link, slots(&i.params), slots(&i.results)).unwrap();
     }
     writeln!(o, "];").unwrap();
-    let hooks = crate::emit_res::hooks_expr(an, &res_traits);
+    let hooks = crate::emit_res::hooks_expr(an);
     writeln!(
         o,
         "pub static TABLES: Tables = Tables {{ wit: {wit:?}, world: {world:?}, opts: {opts_json:?}, exports: EXPORTS, imports: IMPORTS, res_hooks: {hooks} }};"
